@@ -47,6 +47,46 @@ DESC = {
 "C17d-m1": "top-prevalence cluster per sample via idxmax: with tied top clusters the truncal cluster depends on the row order of the cluster file (--assign-loss-prob)",
 "C17d-m2": "clusters numbered over the whole cluster table: a gap in the data point numbering when every mutation of a cluster is dropped",
 "C18d-m2": "truncal chromosome array encoded through enumerate(set(...)): with string chromosome names the permutation test's draws depend on PYTHONHASHSEED (borderline cluster)",
+"C01e-m1": "semi-adapted log_p classifies the outlier move as a new-node move (root-membership frozenset lost the outlier clause); needs outlier modelling on",
+"C01e-m2": "bootstrap log_p of a new node loses the (1-o) factor after hoisting constants; needs outlier proposal probability > 0 and >= 2 clones",
+"C02e-m1": "one-shot FFT product for >= 3 children with a transform length that only fits a pair (circular wrap-around; grids >= 1000)",
+"C02e-m2": "add_subtree no longer copies the grafted subtree: node payloads shared between the trees it was grafted into (needs two live trees and a later edit of one)",
+"C03e-m1": "outlier marginal computed in linear space with ONE global max shift: -inf when sample rows differ by > 745 nats",
+"C03e-m2": "grafted clones relabelled from the node count instead of the largest label: label clash after remove_subtree left gaps (>= 5 clones, smaller graft)",
+"C04e-m1": "Tree.move_data_point skips the second root-path refresh when old and new clone are on one lineage: stale ancestors two levels down (>= 4 points, chain of 3 clones)",
+"C04e-m2": "data-point sweep visits only the points movable at the START of the sweep (schedule depends on the start state; single steps stay exact)",
+"C05e-m1": "variant allele probability helper caps at 1-eps only when x == total_cn (wrong for error rates > 1/total_cn)",
+"C05e-m2": "zero-depth samples filtered out before the numba loop, which indexes rows by list position: later samples' grids land in the wrong rows",
+"C06e-m1": "_update_path_to_root stops when the recomputed log_r is np.allclose to the old one (relative tolerance: stale ancestors for |log_r| ~ 1e5)",
+"C06e-m2": "FFT convolution writes into a module-level output buffer that the pair memo table keeps by reference (grids >= 1000, >= 3 children)",
+"C07e-m1": "same change as C03e-m2 (graft labels from the node count), shown as duplicate clone names / lost data in the subtree move",
+"C07e-m2": "to_dict stops copying the per-clone data lists: recorded trees lose outliers when the subtree move edits its input in place",
+"C08e-m1": "bootstrap sample() reuses one uniform for outlier / existing / new: draws (0.5-o, 0.5, o) vs reported ((1-o)/2, (1-o)/2, o)",
+"C08e-m2": "shared _log_p_new_node helper carries the bootstrap prefactor into the semi-adapted proposal: probabilities sum to 1 - o/2",
+"C09e-m1": "burn-in sampler shuffles all data instead of drawing a tree-compatible order (visible from the second burn-in pass)",
+"C09e-m2": "fast path returns outliers unshuffled when the tree has no clones",
+"C10e-m1": "max-product recursion memoised with the order-blind key although it returns per-child choice tables (siblings swap CCFs on a second tree in one process)",
+"C10e-m2": "inner search starts at the previous budget's optimum (valid only for concave tables; copy-number-altered mutations)",
+"C11e-m1": "frequency-mode MAP reads the winning row by label 0 instead of position 0",
+"C11e-m2": "unpickled trace memoised per path, never invalidated (same path re-written in one process)",
+"C12e-m1": "archive Newick taken from the best-scoring visit, table from the first visit (different child order -> different clone numbering)",
+"C12e-m2": "consensus keeps clades with support >= threshold: exact 50/50 splits give inconsistent clades / KeyError",
+"C13e-m1": "cached new-node trees keyed without the tree distribution and never cleared: densities under a stale concentration value",
+"C13e-m2": "n (non-outlier data count) computed once per chain and passed to every concentration update",
+"C14e-m1": "32-bit digests as memo keys of the convolution tables (collisions after ~1e5 different grids)",
+"C14e-m2": "memoised existing-node candidate list handed out by reference; the semi-adapted proposal appends to it on every rebuild at unchanged alpha",
+"C15e-m1": "remove_subtree tests 'whole tree' by node count: outliers wiped when the only top-level clone is pruned (subtree move with outliers)",
+"C15e-m2": "from_dict takes over the dictionary's data lists: restoring the same entry twice after an edit gives different trees",
+"C16e-m1": "weighted consensus looks only at the heaviest topologies whose cumulative weight exceeds the threshold (tail support ignored)",
+"C16e-m2": "counts mode reuses the previous Tree when edge list and log_p_one equal the previous entry's (twin mutations swapped between siblings)",
+"C17e-m1": "genotype priors looked up by copy-number state only: rows sharing a state but not the error rate get another row's prior, depending on row order",
+"C17e-m2": "cluster ids read as strings: lexical order for integer ids of mixed width (>= 11 clusters)",
+"C18e-m1": "concentration sampler's no-clone branch draws from numpy's global generator",
+"C18e-m2": "convolution back-end chosen by a timing race for grids between 256 and 2048",
+"C19e-m1": "no-clone branch of the concentration sampler returns the prior draw without the 1e-10 floor (alpha underflows to 0 in a long all-outlier run)",
+"C19e-m2": "swarm weights exponentiate the UNnormalised log weights: NaN for data points whose incremental weight is below -745",
+"C20e-m1": "memoised trace loader keyed by path: a killed re-run or later truncation is not seen by a process that summarised the path before",
+"C20e-m2": "cluster table written as a separate TSV after the trace (read_csv accepts any prefix)",
 }
 rows = []
 for d in sorted(glob.glob('/verif/seeded/*/meta.json')):
